@@ -108,6 +108,9 @@ type Pool struct {
 	AfterRead func(ev ReadEvent)
 	Record    bool
 	EOFWith   bool // deliver io.EOF together with the last bytes of a file (legal io.Reader behaviour)
+	// ZeroReads > 0: every ZeroReads-th Read returns (0, nil) before anything is read (legal, if
+	// discouraged, for an io.Reader)
+	ZeroReads int
 
 	mu      sync.Mutex
 	History []ReadEvent
@@ -230,6 +233,10 @@ func (r *poolReader) Read(b []byte) (int, error) {
 	if p.FailRead > 0 && n == p.FailRead {
 		p.Faults++
 		return 0, ErrInjected
+	}
+	if p.ZeroReads > 0 && n%p.ZeroReads == 0 && len(b) > 0 {
+		p.Faults++
+		return 0, nil
 	}
 	m := len(b)
 	if p.Slice != nil {
